@@ -24,6 +24,8 @@ pub struct HistoryParams {
     pub reopen_weight: u64,
     pub compact_weight: u64,
     pub tiny_configs_on_reopen: bool,
+    /// reopen with the same options (e.g. to keep appending to one reused WAL and manifest)
+    pub keep_config_on_reopen: bool,
 }
 
 impl HistoryParams {
@@ -44,8 +46,27 @@ impl HistoryParams {
             reopen_weight: 3,
             compact_weight: 3,
             tiny_configs_on_reopen: idx % 4 != 3,
+            keep_config_on_reopen: false,
         }
     }
+    /// A long-lived write-ahead log: default-sized memtable, log reuse on, the same options at every
+    /// reopen, medium values - several MB go into one WAL (and one manifest) across many reopens,
+    /// so appends resume at every alignment within the 32 KiB log blocks.
+    pub fn long_wal(rng: &mut Rng, n_ops: usize) -> HistoryParams {
+        HistoryParams {
+            n_ops,
+            family: KeyFamily::Ascii,
+            pool_size: rng.range(100, 400) as usize,
+            value_mix: ValueMix::Medium,
+            cfg: Config { memtable: 4 << 20, file: 2 << 20, block: 4096, reuse: true },
+            checkpoint_every: 400,
+            reopen_weight: 1,
+            compact_weight: 0,
+            tiny_configs_on_reopen: false,
+            keep_config_on_reopen: true,
+        }
+    }
+
     pub fn describe(&self) -> Value {
         json!({"ops": self.n_ops, "keys": self.family.name(), "pool": self.pool_size,
             "values": format!("{:?}", self.value_mix), "config": self.cfg.describe()})
@@ -187,7 +208,13 @@ pub fn run(
                         } else {
                             roll -= params.compact_weight;
                             if roll < params.reopen_weight {
-                                let cfg = if params.tiny_configs_on_reopen { gen::tiny_config(rng) } else { gen::config(rng) };
+                                let cfg = if params.keep_config_on_reopen {
+                                    sess.cfg
+                                } else if params.tiny_configs_on_reopen {
+                                    gen::tiny_config(rng)
+                                } else {
+                                    gen::config(rng)
+                                };
                                 outcome.reopen_pattern.push(if cfg.reuse { 'r' } else { 'f' });
                                 if let Err(e) = sess.reopen(cfg) {
                                     out.violate(
